@@ -2,6 +2,9 @@
 """Print the prompt given to a fresh sub-agent for one property (only the property text + its own worktree)."""
 import json, sys
 pid = sys.argv[1]; wt = sys.argv[2]; n = sys.argv[3] if len(sys.argv) > 3 else "2"
+EXTRA = """
+
+Make these HARD to find: assume the maintainers already run thousands of randomly generated small systems and random edit histories through the package and compare the results with an independent recomputation, and also check each function in isolation against its documented behaviour. Aim for changes that such checks are unlikely to hit: the interplay of two or three rarely combined features, a specific numeric coincidence or boundary (equal values, exact zeros, values just across a threshold), a state that only a particular multi-step history reaches, an argument form that is legal but unusual (ints instead of floats, lists vs scalars, tuples, numpy scalars, empty containers, names with special characters), behaviour that differs only on the second call, or two cooperating edits at different sites that each look fine alone."""
 p = [json.loads(l) for l in open("/verif/properties.jsonl") if json.loads(l)["id"] == pid][0]
 print(f"""You are helping to evaluate a verification effort for the open-source Python package geddy11/sysloss (a power-tree analyzer: sources, converters, regulators, loads; `System.solve()` computes steady-state voltages, currents, losses).
 
@@ -14,7 +17,7 @@ Title: {p['title']}
 Statement: {p['statement']}
 Quantifier: {p['quantifier']['text']}
 
-Your task: produce {n} DIFFERENT, independent changes ("mutants") to the package source (src/sysloss/*.py only, not the tests) each of which BREAKS this property while the package still imports and the existing, unedited test suite still passes completely (91 passed). Make them realistic - the kind of slip a maintainer could make in a refactoring or a feature change - and SUBTLE: prefer changes that need something specific to manifest (an unusual but legal input, a particular tree shape or order of construction, a multi-step sequence of operations, a particular phase/limit/polarity configuration, a boundary value, or two cooperating edits at different sites that each look fine alone) over changes that any ordinary use would expose at once. Do not just delete a feature or raise an exception unconditionally. Each mutant should be small (a few lines).
+Your task: produce {n} DIFFERENT, independent changes ("mutants") to the package source (src/sysloss/*.py only, not the tests) each of which BREAKS this property while the package still imports and the existing, unedited test suite still passes completely (91 passed). Make them realistic - the kind of slip a maintainer could make in a refactoring or a feature change - and SUBTLE: prefer changes that need something specific to manifest (an unusual but legal input, a particular tree shape or order of construction, a multi-step sequence of operations, a particular phase/limit/polarity configuration, a boundary value, or two cooperating edits at different sites that each look fine alone) over changes that any ordinary use would expose at once. Do not just delete a feature or raise an exception unconditionally. Each mutant should be small (a few lines).""" + (EXTRA if len(sys.argv) > 4 else "") + f"""
 
 For each mutant k = 1..{n}:
  1. start from the clean worktree (`git -C {wt} checkout -- .`), make the change, run the full test suite and confirm 91 passed;
